@@ -424,28 +424,43 @@ def run(ctx):
         else:
             r.bad("quit_after_match", "anchor-missing: quit_after_match", fn=f)
         g = facts.fn(HI + "::printer")
-        env = H.LetEnv(g.hir)
-        mm = [x for x in H.find(g.hir, lambda x: x.get("k") == "match" and x.get("scrut_ty") == SM)]
+        # value table over (search_mode, self.quiet): which printer is built, and with which SummaryKind
+        from ..flow import Sccp as _S2, combinator_model as _cm2
         MAP = {"FilesWithMatches": "PathWithMatch", "FilesWithoutMatch": "PathWithoutMatch", "Count": "Count",
                "CountMatches": "CountMatches"}
-        if len(mm) != 1:
+        res = {}
+        for sm in facts.variants(SM):
+            for q in (0, 1):
+                built = []
+
+                def fm(owner, name, q=q):
+                    return I(q) if owner == HI and name == "quiet" else None
+
+                def inner(call, argv, built=built):
+                    for fn_ in ("printer_json", "printer_standard", "printer_summary"):
+                        if call.path == HI + "::" + fn_:
+                            k_ = argv[2] if fn_ == "printer_summary" and len(argv) > 2 else None
+                            built.append((fn_, k_[1] if k_ is not None and k_[0] == "v" else None))
+                    return None
+                env = {}
+                _S2._write(env, (2, ()), V(sm))
+                _S2(g, call_model=_cm2(facts, inner, field_model=fm), field_model=fm).run([(0, env)])
+                res[(sm, q)] = sorted(set(built))
+        if not any(res.values()):
             r.bad("printer|match", "anchor-missing: HiArgs::printer must match on SearchMode", fn=g)
         else:
-            arms = {H.canon_pat(a["pat"]).split("::")[-1]: a["body"] for a in mm[0]["arms"]}
             for sm, kind in MAP.items():
-                got = H.canon(arms.get(sm, {})).split("::")[-1] if sm in arms else None
-                if got == kind:
+                got = res.get((sm, 0))
+                if got == [("printer_summary", kind)]:
                     r.ok("printer|" + sm, "SearchMode::%s ⇒ SummaryKind::%s" % (sm, kind), fn=g)
                 else:
                     r.bad("printer|" + sm, "SearchMode::%s maps to %s, specified SummaryKind::%s" % (sm, got, kind), fn=g, construct=sm)
             for sm, fn_ in (("JSON", "printer_json"), ("Standard", "printer_standard")):
-                b = H.canon(arms.get(sm, {}))
-                if fn_ in b and b.startswith("<ret>") or fn_ in str(arms.get(sm, "")):
+                if res.get((sm, 0)) == [(fn_, None)]:
                     r.ok("printer|" + sm, "SearchMode::%s ⇒ %s" % (sm, fn_), fn=g)
                 else:
-                    r.bad("printer|" + sm, "SearchMode::%s does not build %s" % (sm, fn_), fn=g, construct=sm)
-        ifs = [x for x in H.find(g.hir, lambda x: x.get("k") == "if" and H.canon(x["c"]) == "self.quiet")]
-        if ifs and H.canon(ifs[0]["t"]).rstrip("}").endswith("SummaryKind::Quiet"):
+                    r.bad("printer|" + sm, "SearchMode::%s does not build %s (%s)" % (sm, fn_, res.get((sm, 0))), fn=g, construct=sm)
+        if res and all(res[(sm, 1)] == [("printer_summary", "Quiet")] for sm in facts.variants(SM)):
             r.ok("printer|quiet", "quiet ⇒ SummaryKind::Quiet regardless of mode", fn=g)
         else:
             r.bad("printer|quiet", "--quiet does not select SummaryKind::Quiet", fn=g, construct="quiet")
